@@ -58,6 +58,16 @@ func flight4bParse(
 		return 0, &alert.Alert{Level: alert.Fatal, Description: alert.HandshakeFailure}, dtlserrors.ErrVerifyDataMismatch
 	}
 
+	// The application's verdict is asked for on every connection, resumed ones
+	// included: it may have changed its mind about this peer since the session
+	// was stored.
+	if cfg.VerifyConnection != nil && !state.ResumedConnectionVerified {
+		if err := cfg.VerifyConnection(state); err != nil {
+			return 0, &alert.Alert{Level: alert.Fatal, Description: alert.BadCertificate}, err
+		}
+		state.ResumedConnectionVerified = true
+	}
+
 	// Other party may re-transmit the last  Keep state to be Flight4b.
 	return Flight4b, nil, nil
 }
